@@ -455,7 +455,10 @@ class Frame(ContainerOperand):
         else:
             block_gen = blocks
 
-        return cls(TypeBlocks.from_blocks(block_gen()),
+        # if no columns remain, no block is yielded: the row count is that of the concatenated rows
+        shape_reference = (sum(len(f._index) for f in frames), 0) if axis == 0 else None
+
+        return cls(TypeBlocks.from_blocks(block_gen(), shape_reference=shape_reference),
                 index=index,
                 columns=columns,
                 name=name,
